@@ -342,6 +342,7 @@ class Ctx:
                 v = self.actual_kwargs[name]
             else:
                 v = default() if callable(default) else default
+            v = self.ip.models.narrow(self.ip, v)
         else:
             if ty is None:
                 raise Unsupported(f"{self.contract.key}: argument {name} needs a type for verification")
@@ -704,6 +705,7 @@ def verify_function(src, registry: Registry, schema_factory, models, ct: Contrac
                 outcome = "cut"
             path.ghost["ip"] = ip
             if outcome == "return":
+                val = ip.models.narrow(ip, val)
                 goals = []
                 for name, fn_, meta in c.ensures_:
                     g = fn_(val)
